@@ -66,7 +66,27 @@ fn arg_bytes(v: i64) -> [u8; 2] {
     }
 }
 
-fn variants(family: &str) -> Vec<(&'static str, &'static str)> {
+fn variants(family: &str, pn: u32) -> Vec<(&'static str, &'static str)> {
+    let all = variants_all(family);
+    let want: Option<&str> = match pn {
+        13 => Some("list"),
+        1 | 2 | 4 | 5 | 6 | 7 | 8 | 9 | 11 | 17 => Some("tree"),
+        _ => None,
+    };
+    match want {
+        Some(w) => {
+            let v: Vec<_> = all.iter().copied().filter(|x| x.0 == w).collect();
+            if v.is_empty() {
+                all
+            } else {
+                v
+            }
+        }
+        None => all,
+    }
+}
+
+fn variants_all(family: &str) -> Vec<(&'static str, &'static str)> {
     match family {
         "key" => vec![("tree", "u64"), ("list", "u64")],
         "map" => vec![("tree", "u64"), ("tree", "string"), ("list", "u64"), ("list", "string")],
@@ -79,7 +99,7 @@ pub fn decode(family: &str, prop: &str, data: &[u8]) -> Case {
     let pn = crate::run::prop_num(prop).unwrap_or(10);
     let mut c = Case::new(prop, family);
     let h = |i: usize| data.get(i).copied().unwrap_or(0) as usize;
-    let vs = variants(family);
+    let vs = variants(family, pn);
     match family {
         "seg" => {
             let doms = seg_domains(true);
@@ -140,7 +160,7 @@ pub fn encode(case: &Case) -> Vec<u8> {
             out[2] = doms.iter().position(|d| d.0 == lo && d.1 == len && d.2 == rt).unwrap_or(0) as u8;
         }
         _ => {
-            let vs = variants(family);
+            let vs = variants(family, pn);
             let coll = case.get_str("coll", "tree");
             let val = case.get_str("val", "u64");
             out[0] = vs.iter().position(|v| v.0 == coll && (family == "key" || v.1 == val)).unwrap_or(0) as u8;
